@@ -427,6 +427,13 @@ func vfEnvRun(t testing.TB, sc vfScript) []map[string]any {
 		}
 		return map[string]any{"pre": ew.projPre(), "cid": cids}
 	}
+	// messages handed to the caller are kept and compared again at every later presentation: what an open
+	// returned must stay what it was (a result that aliases a buffer the store reuses does not)
+	type vfKeptMsg struct {
+		em   *protocoltypes.EncryptedMessage
+		want []byte
+	}
+	var keptMsgs []vfKeptMsg
 	// one presentation of concrete bytes to the receiver, composed like the message store does
 	open := func(label, gl string, env []byte, withSt bool) map[string]any {
 		ev := map[string]any{"ev": "open", "e": label, "g": gl}
@@ -455,9 +462,17 @@ func vfEnvRun(t testing.TB, sc vfScript) []map[string]any {
 				ev["rdv"] = lab
 				ev["rct"] = int(hdr.Counter)
 				ev["rpl"] = plabelOf(got)
+				keptMsgs = append(keptMsgs, vfKeptMsg{em: em, want: append([]byte(nil), got...)})
 			}
 		}
 		ev["ok"] = okv
+		keptOK := true
+		for _, k := range keptMsgs {
+			if b, _ := proto.Marshal(k.em); !bytes.Equal(b, k.want) && !(len(b) == 0 && len(k.want) == 0) {
+				keptOK = false
+			}
+		}
+		ev["kept"] = keptOK
 		if withSt {
 			ev["st"] = proj()
 		}
